@@ -16,7 +16,7 @@ func init() {
 	replayers["C09/seq"] = func(c *Ctx, raw json.RawMessage) string {
 		var cs seqCase
 		json.Unmarshal(raw, &cs)
-		al := sigma(cs.Full, cs.Invalid)
+		al := sigmaNamed(cs.Alpha, cs.Full, cs.Invalid)
 		return c09EvalSeq(al, cs.Ops, cs.Hook, true)
 	}
 	replayers["C09/state"] = func(c *Ctx, raw json.RawMessage) string {
@@ -45,6 +45,7 @@ type seqCase struct {
 	Hook    bool     `json:"hook_installed"`
 	Ops     []int    `json:"ops"`
 	Names   []string `json:"names"`
+	Alpha   string   `json:"alphabet,omitempty"`
 }
 
 type stateCase struct {
@@ -222,8 +223,12 @@ func precomputeRaw(al []Op) {
 	}
 }
 
+// seqAlpha: "" = sigma(full, invalid); "num" = sigmaNum (set around a runSeqSection call)
+var seqAlpha = ""
+
 func runSeqSection(c *Ctx, name string, full, invalid bool, depth int, hook bool, eval func(al []Op, idx []int, w *Worker) (class, detail string)) {
-	al := sigma(full, invalid)
+	alpha := seqAlpha
+	al := sigmaNamed(alpha, full, invalid)
 	precomputeRaw(al)
 	en := NewSeqEnum(len(al), depth)
 	c.Section(name, map[string]interface{}{"alphabet_ops": len(al), "depth": depth, "implementations": implNames, "hook_route": hook}, en.Total, func(i int, w *Worker) {
@@ -234,7 +239,7 @@ func runSeqSection(c *Ctx, name string, full, invalid bool, depth int, hook bool
 			for j, k := range idx {
 				names[j] = al[k].Name
 			}
-			w.Fail(cl, seqCase{Full: full, Invalid: invalid, Hook: hook, Ops: idx, Names: names}, d)
+			w.Fail(cl, seqCase{Full: full, Invalid: invalid, Hook: hook, Ops: idx, Names: names, Alpha: alpha}, d)
 		}
 		if i%200003 == 0 {
 			ops := make([]*Op, len(idx))
@@ -261,6 +266,13 @@ func checkC09(c *Ctx) {
 		runSeqSection(c, "C09/seq", false, false, 4, true, ev)
 		runSeqSection(c, "C09/seq", true, false, 2, true, ev)
 	}
+	seqAlpha = "num"
+	if c.Quick() {
+		runSeqSection(c, "C09/seq-numeric", false, false, 2, true, ev)
+	} else {
+		runSeqSection(c, "C09/seq-numeric", false, false, 3, true, ev)
+	}
+	seqAlpha = ""
 	// systematic long family
 	c.Section("C09/long", map[string]interface{}{"writes": 70, "symbols": longSyms, "positions": 70, "implementations": nImpl}, len(longSyms)*70*nImpl, func(i int, w *Worker) {
 		impl := i % nImpl
